@@ -65,63 +65,12 @@ pub fn inject_suite(out: &mut Out, coll: &str, rng: &mut Rng, n_hist: usize, len
                 let mut r = Runner::new(out, &suite, coll, cfg.cap, cfg.variant);
                 r.emit = false;
                 for (o, e) in &prefix { r.step(o, *e); }
-                let pre_state = r.real.state();
-                let pre_entries = r.real.entries().unwrap_or_default();
-                // clean twin to learn the post-state content
-                let post_entries = {
-                    let mut c = make(coll, cfg.cap, cfg.variant);
-                    cb_reset(None, false);
-                    for (o, _) in &prefix { c.apply(o); }
-                    c.apply(&op);
-                    cb_take();
-                    c.entries().unwrap_or_default()
-                };
-                r.ops.push(op.clone());
                 r.emit = true;
-                cb_reset(Some(k), true);
-                let real = &mut r.real;
-                let res = catch_unwind(AssertUnwindSafe(|| real.apply(&op)));
-                let (_cnt, _log) = cb_take();
-                let panicked = match &res { Err(e) => e.is::<InjectedPanic>(), Ok(_) => false };
-                r.out.eval("C18");
-                if !panicked {
-                    match res {
-                        Ok(_) => r.fail(&["C18"], &format!("callback #{} of `{}` was not reached on replay (non-deterministic callback sequence)", k, op.text()), "panic", "completed"),
-                        Err(e) => { let msg = e.downcast_ref::<String>().cloned().or(e.downcast_ref::<&str>().map(|s| s.to_string())).unwrap_or("?".into()); r.fail(&["C18", "C10"], &format!("a different panic while unwinding from callback #{} of `{}`", k, op.text()), "injected panic only", &msg) }
-                    }
-                    r.end();
-                    continue;
-                }
-                let post_state = r.real.state();
-                if modelled {
-                    let pre = pre_state.unwrap_or_else(|e| format!("ABSFAIL {}", e));
-                    let post = match &post_state { Ok(s) => s.clone(), Err(e) => format!("ABSFAIL {}", e) };
-                    writeln!(r.out.req, "{} {} | {} | inj {}", coll, op.text(), pre, k).unwrap();
-                    match r.real.abs_note() {
-                        Some(n) => writeln!(r.out.exp, "out=panic | st={} | tr=* | abs={}", post, n).unwrap(),
-                        None => writeln!(r.out.exp, "out=panic | st={} | tr=*", post).unwrap(),
-                    }
-                    writeln!(r.out.ctx, "H{} {}", r.hid, r.ops.len() - 1).unwrap();
-                    r.out.lines += 1;
-                }
-                // oracle: structurally valid and contents = before or after
-                if let Some(Err(e)) = r.real.structure() { r.fail(&["C18", "C02"], &format!("structure after a panic in callback #{} of `{}`", k, op.text()), "valid tree", &e); }
-                if let Err(e) = &post_state { r.fail(&["C18", "C11"], &format!("arena after a panic in callback #{} of `{}`", k, op.text()), "consistent links and slots", e); r.end(); continue; }
-                let now = r.real.entries().unwrap_or_default();
-                let proj = |es: &[(u32, i64, i64, i64)], t: Option<i64>| -> Vec<(i64, i64, i64)> { es.iter().filter(|e| t.map_or(true, |t| e.2 > t)).map(|e| (e.1, e.2, e.3)).collect() };
-                let t = if expiring { match op.name.as_str() { "insert" => Some(op.a[3]), "clear" | "isempty" => None, _ => Some(op.a[0]) } } else { None };
-                let is_pre = proj(&now, t) == proj(&pre_entries, t);
-                let is_post = proj(&now, t) == proj(&post_entries, t);
-                if !is_pre && !is_post {
-                    r.fail(&["C18"], &format!("contents after a panic in callback #{} of `{}` are neither those before nor those after the operation", k, op.text()),
-                        &format!("{:?} or {:?}", proj(&pre_entries, t), proj(&post_entries, t)), &format!("{:?}", proj(&now, t)));
-                    r.end();
-                    continue;
-                }
-                if is_post && !is_pre { r.ref_update(&op, ek); }
-                if let Some(t) = t { r.refm.last_t = r.refm.last_t.max(t); }
-                // the survivor keeps working: a few more operations under the ordinary oracles
+                if !r.step_injected(&op, k, ek, modelled) { r.end(); continue; }
+                // the survivor keeps working: a few more operations under the ordinary oracles;
+                // whatever goes wrong from here on is a consequence of the panic (C18)
                 r.emit = true;
+                r.also = Some("C18");
                 let mut extra = 0;
                 for (o, _) in path[i + 1..].iter() {
                     if extra >= 4 || r.dead { break; }
@@ -133,6 +82,20 @@ pub fn inject_suite(out: &mut Out, coll: &str, rng: &mut Rng, n_hist: usize, len
                     if coll == "klist" && r.real.state().map_or(true, |s| s == "-") { break; }
                     r.step(o, None);
                     extra += 1;
+                }
+                // expiring collections: probe the survivor at every later expiration time - a cached
+                // shortcut left inconsistent by the panic shows up as an expired entry being served
+                if expiring && !r.dead && r.real.state().map_or(false, |s| s != "-") {
+                    let t0 = r.refm.last_t;
+                    let mut times: Vec<i64> = r.refm.m.values().map(|x| x.0).filter(|e| *e >= t0).collect();
+                    times.sort(); times.dedup();
+                    let keys: Vec<i64> = r.refm.m.keys().cloned().collect();
+                    'probe: for tp in times {
+                        for k in &keys {
+                            if r.dead { break 'probe; }
+                            r.step(&Op::new("get", &[tp, *k]), None);
+                        }
+                    }
                 }
                 r.end();
             }
